@@ -18,6 +18,7 @@ int  simfs_open_fds(void);               /* descriptors opened through mkstemp a
 int  simfs_open_dirs(void);
 void simfs_tempfile_check_at_return(int fd);   /* oracle hook: called by workloads after spiftool_temp_file returns */
 int  simfs_fd_mode(int fd);
+void simfs_set_mkstemp_mode(int m);    /* 0600 (modern libc) or 0666 (historic: mode left to the umask) */
 
 /* name service table */
 void simns_reset(void);
